@@ -70,9 +70,9 @@ def to_impl(comps):
     for c in comps:
         f = getattr(ccp, c['kind'])
         if c['kind'] == 'ground':
-            out.append(f(id=c['id'], nodes=(c['nodes'][0],)))
+            out.append(f(id=c['id'], nodes=(gen_net.fresh(c['nodes'][0]),)))
         else:
-            out.append(f(id=c['id'], nodes=(c['nodes'][0], c['nodes'][1]), **c['args']))
+            out.append(f(id=c['id'], nodes=(gen_net.fresh(c['nodes'][0]), gen_net.fresh(c['nodes'][1])), **c['args']))
     return Circuit(out)
 
 def pretty(comps):
